@@ -190,13 +190,24 @@ func engineHTree(c *Ctx) {
 		// key pool: the bucket's digits on top, the next two digits from a small set (so that leaves and inner nodes are
 		// shared), the rest random; a few keys of OTHER buckets (the tree indexes by the digits below the bucket's)
 		nk := 6 + r.Intn(40)
+		big := r.Chance(12)
+		if big {
+			// enough keys for inner nodes to cross ThresholdBigHash (256 live keys: the inner hash switches from the plain
+			// sum to the base-97 polynomial) in both directions
+			nk = 280 + r.Intn(160)
+			c.count("tree.big")
+		}
 		keys := make([]uint64, nk)
 		for i := range keys {
 			var kh uint64
 			if depth > 0 {
 				kh = uint64(bid) << uint(64-4*depth)
 			}
-			kh |= uint64(r.Intn(3)) << uint(64-4*depth-4)
+			d1 := 3
+			if big {
+				d1 = 1 + r.Intn(2) // most keys under one or two children of the root: those inner nodes pass 256
+			}
+			kh |= uint64(r.Intn(d1)) << uint(64-4*depth-4)
 			kh |= uint64(r.Intn(4)) << uint(64-4*depth-8)
 			kh |= r.Next() & ((uint64(1) << uint(64-4*depth-8)) - 1)
 			keys[i] = kh
@@ -204,6 +215,9 @@ func engineHTree(c *Ctx) {
 		nops := 40 + r.Intn(160)
 		if c.tier == "thorough" {
 			nops = 100 + r.Intn(500)
+		}
+		if big {
+			nops = 2*nk + r.Intn(nk)
 		}
 		off := uint32(256)
 		for n := 0; n < nops; n++ {
